@@ -301,15 +301,68 @@ void vp_once_store (nsync_atomic_uint32_ *p, uint32_t v, int order);
 #define VP_ONCE_STORE(p,v,order)
 #endif
 
+#ifdef VP_RG_CNT
+#include "vp_cnt.h"
+int vp_cnt_cas (nsync_atomic_uint32_ *p, uint32_t o, uint32_t n, int order);
+uint32_t vp_cnt_load (nsync_atomic_uint32_ *p, int order);
+void vp_cnt_store (nsync_atomic_uint32_ *p, uint32_t v, int order);
+uint32_t vp_cnt_waited_load (nsync_atomic_uint32_ *p, int order);
+#define VP_CNT_CAS(p,o,n,order) if ((p) == vp_reg.value_word) return vp_cnt_cas ((p), (o), (n), (order))
+#define VP_CNT_LOAD(p,order) if ((p) == vp_reg.value_word) return vp_cnt_load ((p), (order)); if ((p) == vp_c.waited_word) return vp_cnt_waited_load ((p), (order))
+#define VP_CNT_STORE(p,v,order) if ((p) == vp_reg.value_word) { vp_cnt_store ((p), (v), (order)); return; } if ((p) == vp_c.waited_word) { *(p) = (v); return; }
+#else
+#define VP_CNT_CAS(p,o,n,order)
+#define VP_CNT_LOAD(p,order)
+#define VP_CNT_STORE(p,v,order)
+#endif
+
+/* ------------------------------------------------------------------ */
+/* Waiting flags of OTHER threads' waiter records, as seen by a waker: the
+   hand-off is "unlink, store waiting = 0 with release order, post the
+   semaphore", in that order.  The records are the abstract queue's foreign
+   record vp_fw or harness-registered records. */
+#ifdef VP_RG_WAKER
+#ifdef VP_WK_LOCKED
+#include "vp_amu.h"
+#endif
+struct vp_waker_ghost vp_wk;
+static int is_foreign_waiting (nsync_atomic_uint32_ *p) {
+	int i;
+	if (p == &vp_fw.nw.waiting) return 1;
+	for (i = 0; i != VP_WK_MAX; i++) { if (vp_wk.rec[i] != NULL && p == &vp_wk.rec[i]->waiting) return 1; }
+	return 0;
+}
+static void foreign_waiting_store (nsync_atomic_uint32_ *p, uint32_t v, int order) {
+	if (v == 0) {
+		VP_ASSERT (order == VP_REL || order == VP_ACQREL, "C03: a waker clears the waiter's waiting flag with release order");
+#ifdef VP_WK_LOCKED
+		if (vp_wk.lock != NULL) VP_ASSERT (vp_amu_held (vp_wk.lock), "C13: the waker clears the waiter's flag while holding the lock that the waiter's dequeue takes");
+#endif
+		vp_wk.cleared++;
+		vp_wk.pending = 1;          /* flag cleared, semaphore not yet posted */
+		vp_wk.last_cleared = p;
+	}
+	*p = v;
+}
+#define VP_WK_STORE(p,v,order) if (is_foreign_waiting (p)) { foreign_waiting_store ((p), (v), (order)); return; }
+#else
+#define VP_WK_STORE(p,v,order)
+#endif
+
 void vp_reg_clear (void) {
 	vp_reg.mu_word = NULL; vp_reg.my_waiting = NULL; vp_reg.cv_word = NULL; vp_reg.once_word = NULL;
 	vp_reg.sem_word = NULL; vp_reg.value_word = NULL; vp_reg.notified_word = NULL;
+#ifdef VP_RG_WAKER
+	{ int i; for (i = 0; i != VP_WK_MAX; i++) vp_wk.rec[i] = NULL; }
+	vp_wk.cleared = 0; vp_wk.posted = 0; vp_wk.pending = 0; vp_wk.last_cleared = NULL; vp_wk.lock = NULL;
+#endif
 }
 
 int vp_cas (nsync_atomic_uint32_ *p, uint32_t o, uint32_t n, int order) {
 	VP_MU_CAS (p, o, n, order);
 	VP_SEM_CAS (p, o, n, order);
 	VP_ONCE_CAS (p, o, n, order);
+	VP_CNT_CAS (p, o, n, order);
 	if (p != vp_reg.my_waiting) *p = vp_nondet_u32 ();   /* unregistered: any environment */
 	if (*p != o) return 0;
 	*p = n;
@@ -319,6 +372,7 @@ uint32_t vp_load (nsync_atomic_uint32_ *p, int order) {
 	VP_MU_LOAD (p, order);
 	VP_SEM_LOAD (p, order);
 	VP_ONCE_LOAD (p, order);
+	VP_CNT_LOAD (p, order);
 	*p = vp_nondet_u32 ();
 	return *p;
 }
@@ -326,5 +380,7 @@ void vp_store (nsync_atomic_uint32_ *p, uint32_t v, int order) {
 	VP_MU_STORE (p, v, order);
 	VP_SEM_STORE (p, v, order);
 	VP_ONCE_STORE (p, v, order);
+	VP_CNT_STORE (p, v, order);
+	VP_WK_STORE (p, v, order);
 	*p = v;
 }
